@@ -40,7 +40,8 @@ def campaign(ev, bins, jobs, tag, env=None):
     results = conc.pmap(job, list(enumerate(alljobs)), lambda j: j[1][1])
     paths, hangs = [], []
     for (k, (b, mode, fl, topo)), out, rc, o in results:
-        if rc == 124:
+        if rc in (124, -9, 137):
+            # did not finish within the (repeated) bound, or was killed because a runaway execution exhausted memory with its log
             hangs.append((b, mode, topo))
         elif rc not in (0, 3, 43, 44):
             raise ToolError("%s harness failed rc=%s (%s %s):\n%s" % (b, rc, mode, topo, o[-1500:]))
